@@ -16,16 +16,16 @@ CHECKS = {
                 text='Real alg/*.c objects run under ASan+UBSan on every length 0..600 x 3 update partitions, every HMAC key length 0..200, every PBKDF2 dkLen 1..200, every CRC32C (length 0..80, alignment 0..15), random cases and two >2^32-bit streams per hash (chunked and one single update >= 2^29 bytes); each result is compared with an independent implementation. Sampling, not proof: lengths beyond 64 KiB are covered by the long streams only.',
                 note='Trusts Python hashlib/hmac (OpenSSL) as the specification; gcc 12 ASan/UBSan.'),
     'C02': dict(level='exploration', ref='4/C02',
-                technique='runtime monitoring: differential against an independent byte-oriented FIPS-197 / SP 800-38A reference (harness/common/refaes.c, self-checked on the FIPS vectors, spot-checked with openssl enc) under ASan+UBSan, AES-NI build and OpenSSL-software build; long streams really run across blocks 256 and 65536; far-offset streams are positioned with the LIBCPERCIVA_VERIF hook crypto_aesctr_verif_seek at block 2^e - d (e = 8..56) and cross 2^e with bulk, sub-block and 0-length calls, judged at the absolute block index',
+                technique='runtime monitoring: differential against an independent byte-oriented FIPS-197 / SP 800-38A reference (harness/common/refaes.c, self-checked on the FIPS vectors, spot-checked with openssl enc) under ASan+UBSan, AES-NI build and OpenSSL-software build; long streams really run across blocks 256 and 65536; far-offset streams are positioned with the LIBCPERCIVA_VERIF hook crypto_aesctr_verif_seek at block 2^e - d (e = 8..56) and cross 2^e with bulk, sub-block and 0-length calls, judged at the absolute block index; in every other case the library\'s key and stream objects are allocated 8 mod 16 (misaligning allocator under the library)',
                 text='Seeded random and planned workload: key/block pairs, CTR streams under 3 partitions each (0-length, sub-block and multi-block calls), crypto_aesctr_buf, in-place, encrypt-twice, init2 re-use with and without a new key, streams of >300 and >70,000 blocks (2^24 in thorough) cut around blocks 255/256/65535/65536 on both the incremental and the bulk path, and an exhaustive grid of 317 far-offset streams per build (7 boundaries x 9 start offsets x 5 crossing kinds + one 300..1300-block call per boundary).',
                 note='Keys, nonces and partitions are sampled. Carries above block 2^16 rely on the seek hook (it sets the byte counter and counter block as after n whole blocks; nothing streams that far except a real 2^24-block stream in thorough). Streams stay below block 2^60 (the library\'s 64-bit byte position); block 2^64 is not defined by the statement. Inconclusive if the AES-NI build does not select AES-NI.'),
     'C03': dict(level='exploration', ref='4/C03',
-                technique='runtime monitoring of build variants: the alg/crypto objects compiled in every subset of {SHANI+SSSE3, SSE2, SSE42 32/64, AESNI}, with run-time detectors substituted to answer "absent", without CPUID (39 builds), plus 10 "self-test fails" variants in which the CPU reports the feature but the library\'s own start-up self-test of the implementation is made to fail once through the --wrap wrapper (49 configurations); one seeded workload, N-way comparison plus references; --wrap call counters prove which implementation ran and that a disabled implementation is never used afterwards; far-offset AES-CTR streams positioned with the LIBCPERCIVA_VERIF seek hook',
+                technique='runtime monitoring of build variants: the alg/crypto objects compiled in every subset of {SHANI+SSSE3, SSE2, SSE42 32/64, AESNI}, with run-time detectors substituted to answer "absent", without CPUID (39 builds), plus 10 "self-test fails" variants in which the CPU reports the feature but the library\'s own start-up self-test of the implementation is made to fail once through the --wrap wrapper (49 configurations); one seeded workload, N-way comparison plus references; --wrap call counters prove which implementation ran and that a disabled implementation is never used afterwards; far-offset AES-CTR streams positioned with the LIBCPERCIVA_VERIF seek hook; in every other case the library\'s key and stream objects are allocated 8 mod 16',
                 text='All 49 configurations executable on this host are enumerated. Inputs are sampled: alignments 0..15; lengths and partitions around the 8/16/64-byte thresholds; AES-CTR streams already in use containing one call of 256..1248 whole blocks followed by sub-block calls, 0-length calls and a tail; one bulk call crossing block 65536; the complete far-offset grid (7 boundaries 2^8..2^56 x 9 offsets x 5 crossing kinds + 7 big calls = 317 streams, 15,533 answers per quick run). Every answer is compared with hashlib/hmac, the CRC algebra and the AES reference and with every other variant. A "Disabling ..." warning is a violation except in the self-test-fails variants, where any call of the disabled implementation after the warning is a violation.',
                 note='ARM paths cannot run on this host. A variant whose intended path never ran (or whose forbidden path ran) makes the result inconclusive, never a pass. The failed self-test is simulated in the harness; the CPU is not faulty. Counters above 2^16 blocks rely on the seek hook; the 2^64 wrap is not exercised.'),
     'C04': dict(level='exploration', ref='4/C04',
                 technique='runtime monitoring: trace checker (vlib/evtrace.py rule set C04) over the API-boundary event log of random register/cancel/reset programs run by the real event loop on a simulated kernel (interposed poll/clock_gettime), invariant hook of events_network.c at every callback and poll entry, ASan+UBSan with real and pass-through pool',
-                text='60,000 (quick) / 800,000 (thorough) random programs, each ending in a drain where every surviving registration must fire exactly once; rules: callback only while registered and at most once, socket callback only after a poll reported the direction ready since registration (or the latest poll reported ERR/HUP), timer never early, EEXIST/ENOENT, the six structural invariants.',
+                text='60,000 (quick) / 800,000 (thorough) random programs, each ending in a drain where every surviving registration must fire exactly once; rules: callback only while registered and at most once, socket callback only after a poll reported the direction ready since registration (or the latest poll reported ERR/HUP), timer never early, EEXIST/ENOENT, the six structural invariants. One step in 60 is a timer burst (8-48 timers, a random half cancelled or reset in random order) so that the timer heap gets several levels deep.',
                 note='Kernel and clock are simulated (harness/common/simk.c); programs are random, descriptors <= 12; allocation failure is C14.'),
     'C05': dict(level='exploration', ref='4/C05',
                 technique='runtime monitoring: trace checker (vlib/evtrace.py rule set C05) over the same executions as C04, judged against a model of {pending immediates, world-ready sockets, expired timers} in virtual time',
@@ -33,19 +33,19 @@ CHECKS = {
                 note='Unbounded liveness is not decidable by finite runs and is not claimed; progress clauses are bounded by one events_run call. EINTR is injected only into polls that would block.'),
     'C06': dict(level='exploration', ref='4/C06',
                 technique='runtime monitoring: byte-exact stream oracle at the syscall boundary (interposed recv/send/connect/getsockopt/accept/socket/close/poll/clock) with exactly-once counters, ASan+UBSan, real and pass-through pool',
-                text='80,000 (quick) / 1.6M (thorough) scenarios on the simulated kernel plus a real-kernel soak (640 / 9,600 socketpair cases with a forked scripted peer; timing-independent rules only): back-to-back read or write requests on one descriptor with scripted kernel answers (partial lengths, EAGAIN, EINTR, spurious readiness, EOF/errors at random offsets, stalls, cancellation at random steps), simultaneous read+write, connects over lists of 0..5 addresses from 7 behaviours with/without per-address timeout (timing checked in virtual time), accepts with scripted soft/hard errors.',
+                text='80,000 (quick) / 1.6M (thorough) scenarios on the simulated kernel plus a real-kernel soak (640 / 9,600 socketpair cases with a forked scripted peer; timing-independent rules only): back-to-back read or write requests on one descriptor with scripted kernel answers (partial lengths, EAGAIN, EINTR, spurious readiness, EOF/errors at random offsets, stalls, cancellation at random steps), simultaneous read+write, connects over lists of 0..5 addresses from 7 behaviours with/without per-address timeout (timing checked in virtual time), accepts with scripted soft/hard errors. The end of an inbound stream is signalled by poll as POLLIN, as POLLHUP/POLLERR alone, or both; the caller\'s connect timeout struct is overwritten as soon as the call returns; 300,000 loop passes without completion or virtual time advancing are a violation (busy loop).',
                 note='Kernel simulated for the main workload (the soak uses the real one); EAGAIN == EWOULDBLOCK on Linux; connect completions are generated >= 3 ms away from the timeout (ties not generated).'),
     'C07': dict(level='exploration', ref='4/C07',
                 technique='runtime monitoring: every byte visible through netbuf_read_peek compared with the peer\'s keyed stream, every byte accepted by the interposed send compared with the concatenation of the writes; exactly-once callbacks; ASan+UBSan',
-                text='16,000 (quick) / 300,000 (thorough) simulated-kernel histories (plus a real-kernel soak of 640 / 9,600 socketpair cases) of wait(k)/peek/consume(j)/cancel with k from 1 to 20000 (growth and compaction of the 4096-byte buffer) and of reserve/consume/write with sizes 0..50000, crossed with segmentations, EAGAIN/EINTR patterns, EOF and failure offsets (incl. early ones that hit small uncoalesced buffers).',
+                text='16,000 (quick) / 300,000 (thorough) simulated-kernel histories (plus a real-kernel soak of 640 / 9,600 socketpair cases) of wait(k)/peek/consume(j)/cancel (consume also while a wait is outstanding on the network) with k from 1 to 20000 (growth and compaction of the 4096-byte buffer) and of reserve/consume/write with sizes 0..50000, crossed with segmentations, EAGAIN/EINTR patterns, EOF and failure offsets (incl. early ones that hit small uncoalesced buffers).',
                 note='Kernel simulated. After EOF/error is reported the reader is not used further.'),
     'C08': dict(level='exploration', ref='4/C08',
                 technique='runtime monitoring: ASan/UBSan + abort/assert/signal detection + callback counter + range checks on struct http_response made while reading every header string and body byte + live-block count of a tracking allocator + pending-after-close detector, over structured mutations of generated responses on the simulated kernel',
-                text='74,000 (quick) / 1.5M (thorough) (byte string, segmentation, limit, request, cancel step, transport mode) cases: 15 structured mutation families (incl. whitespace after an empty chunk-size line up to the end of the reader\'s buffer, bodies at limit-2..limit+2 in all framings, 64 KiB header blocks, 1xx floods), EOF at every offset of short responses, limits 0/1/2/around the body/large.',
+                text='74,000 (quick) / 1.5M (thorough) (byte string, segmentation, limit, request, cancel step, transport mode) cases: 18 structured mutation families (incl. CR CR LF line ends, a hostile chunk-size line after a valid chunk with sizes within n of SIZE_MAX, odd Content-Length spellings, whitespace after an empty chunk-size line up to the end of the reader\'s buffer, bodies at limit-2..limit+2 in all framings, 64 KiB header blocks, 1xx floods), EOF at every offset of short responses, limits 0/1/2/around the body/large.',
                 note='Kernel simulated; byte strings are sampled from the mutation families, not all byte strings. Leak check = live-block count returns to its pre-request value (pass-through pool build).'),
     'C09': dict(level='exploration', ref='4/C09',
                 technique='runtime monitoring: generator-known (status, headers, body) and request bytes compared with the callback arguments and the bytes captured by the interposed send, ASan+UBSan, leak count',
-                text='40,000 (quick) / 500,000 (thorough) generated well-formed responses: Content-Length / chunked (1..50 chunks, extensions, hex case, leading zeros, trailers, chunks above 1 MiB in thorough) / read-to-EOF, 0..3 interim 1xx responses shorter and longer than the final header block, HEAD/204/304, OWS and colons in values, limits equal to and above the body, four segmentation modes, async connects, tiny send windows.',
+                text='40,000 (quick) / 500,000 (thorough) generated well-formed responses: Content-Length / chunked (1..50 chunks, extensions, hex case, leading zeros, trailers, chunks above 1 MiB in thorough) / read-to-EOF, 0..3 interim 1xx responses shorter and longer than the final header block, HEAD/204/304, OWS and colons in values, limits equal to and above the body, four segmentation modes (one cuts at, 1 and 2 bytes behind every chunk-size line and around every chunk\'s CRLF), request bodies with every method incl. HEAD, async connects, tiny send windows.',
                 note='Header blocks stay below the client\'s 64 KiB limit and chunk-size lines below its 256-byte limit (implementation limits, not part of the claim).'),
     'C10': dict(level='exploration', ref='4/C10',
                 technique='runtime monitoring under ASan+UBSan of the real crypto_dh.c with crypto_entropy_read substituted at link time (blinding chosen by the case); Python big-integer oracle pow(., 2^258+x, p) with p typed in from RFC 3526 and cross-checked against the RFC\'s pi formula',
@@ -65,7 +65,7 @@ CHECKS = {
                 note='Random sampling. Heap-internal checks rely on the LIBCPERCIVA_VERIF peek hook.'),
     'C14': dict(level='fault_enumeration', ref='4/C14',
                 technique='runtime fault injection with monitors: tracking allocator with failpoints under the library (--wrap), one forked child per allocation attempt k (fails once / fails from k on), model-equality and registration monitors, refuse-everything during cannot-fail operations, empty-live-set check after all atexit handlers, ASan+UBSan, simulated kernel for the I/O scenarios',
-                text='12 scenarios (array, queue, map, heap, timer queue, event registrations, network read/write, connect/accept, netbuf reader/writer, a complete HTTP request, helpers + AWS signing, object pool); EVERY allocation attempt of each executed scenario is failed in both modes (about 6,200 children quick, 45,000 thorough).',
+                text='12 scenarios (array, queue, map, heap, timer queue, event registrations, network read/write, connect/accept, netbuf reader/writer, a complete HTTP request, helpers + AWS signing, object pool); EVERY allocation attempt of each executed scenario is failed in both modes (about 6,000 children quick, 45,000 thorough). Queue and map histories have growing and draining phases (compaction and shrinking under refusal); the event scenario registers up to 24 descriptors at once (growth of the per-descriptor arrays with live registrations); the HTTP scenario sees interim responses with and without header lines.',
                 note='Exhaustive over the fault points of the executed scenarios, not over all scenarios. libc-internal allocations are not injectable. A request that never calls back after an event-loop error is taken to have been torn down by the library; the exit-time live-set check verifies it.'),
     'C15': dict(level='exploration', ref='4/C15',
                 technique='runtime monitoring under ASan+UBSan (-O1 and -O0 builds) with every input in a heap block of exactly its size and every output in a block of exactly the contract\'s size; range checks on results; per-input CPU-time watchdog; getaddrinfo interposed; thorough adds libFuzzer (clang) and valgrind memcheck',
